@@ -38,6 +38,49 @@ class CacheHooks(StdHooks):
     # --- atomics (shared variant)
     def external_call(self, it, name, node, args, this_cell):
         base = name.split('<')[0]
+        if name.startswith('std::__atomic_base<') or (name.startswith('std::atomic<') and name.split('<')[1].split('>')[0] in
+                                                        ('unsigned int', 'int', 'unsigned long', 'long', 'unsigned short', 'bool', 'unsigned char', 'size_t')):
+            # an atomic counter: every operation is one indivisible step of the sequential model
+            meth = name.split('>::')[-1]
+            cur = this_cell.value if this_cell is not None else None
+
+            def num(v):
+                v = v.value if isinstance(v, Cell) else v
+                return int(v) if isinstance(v, (int, bool)) else v
+            if meth in ('atomic', '__atomic_base'):
+                if this_cell is not None:
+                    this_cell.value = num(it.eval(args[0])) if args else 0
+                return None
+            if meth == 'load' or meth.startswith('operator ') and not args:
+                return cur
+            if meth in ('store', 'operator=') and args:
+                v = num(it.eval(args[0]))
+                it.write(this_cell, v, node)
+                return v if meth == 'operator=' else None
+            if meth in ('fetch_add', 'fetch_sub') and args:
+                d = num(it.eval(args[0]))
+                it.write(this_cell, cur + d if meth == 'fetch_add' else cur - d, node)
+                return cur
+            if meth in ('operator++', 'operator--'):
+                d = 1 if meth == 'operator++' else -1
+                it.write(this_cell, cur + d, node)
+                return cur if args else cur + d  # postfix has the dummy int argument
+            if meth in ('operator+=', 'operator-=') and args:
+                d = num(it.eval(args[0]))
+                it.write(this_cell, cur + d if meth == 'operator+=' else cur - d, node)
+                return this_cell.value
+            if meth == 'exchange' and args:
+                v = num(it.eval(args[0]))
+                it.write(this_cell, v, node)
+                return cur
+            if meth in ('compare_exchange_weak', 'compare_exchange_strong') and len(args) >= 2:
+                exp = it.lval(args[0])
+                des = num(it.eval(args[1]))
+                if cur == num(exp.value):
+                    it.write(this_cell, des, node)
+                    return 1
+                it.write(exp, cur, node)
+                return 0
         if name.startswith('std::atomic<') and name.endswith('::atomic'):
             if this_cell is not None and not isinstance(this_cell.value, Obj):
                 this_cell.value = Obj('list_head', None, this_cell.name)
@@ -164,6 +207,7 @@ class Cache:
                 self.f[n] = fs[0]
         self.ctor = db.one(unit_name, '%s::cache' % cls)
         self.N = None
+        self.seen = {}  # per cache object: records that have been on a list
 
     def new(self, hooks=None):
         hooks = hooks or CacheHooks()
@@ -206,9 +250,17 @@ class Cache:
         return res['free_list'], res['data_list']
 
     def check_conservation(self, this):
+        """no record on both lists or twice on one; a record that has been on a list is on exactly one list after every
+        operation.  (A design that links records lazily never has the unused ones on a list: they are not missed.)"""
         free, data = self.lists(this)
-        if sorted(free + data) != list(range(self.N)):
+        both = sorted(free + data)
+        if len(set(both)) != len(both) or any(not (0 <= r < self.N) for r in both):
             raise Violation19('F.rec.conserve', 'records on the free list %s and the data list %s do not partition the %d records' % (free, data, self.N), None)
+        seen = self.seen.setdefault(id(this), set())
+        gone = sorted(seen - set(both))
+        if gone:
+            raise Violation19('F.rec.conserve', 'records %s were on a list before and are on neither now (free list %s, data list %s): they do not partition the %d records' % (gone, free, data, self.N), None)
+        seen.update(both)
         return free, data
 
     def op_insert(self, this, it, hooks, tag):
